@@ -1436,6 +1436,13 @@ impl World {
             Ok(r) => r,
             Err(_) => {
                 self.dead = true;
+                // The secret accessors are total (checked arithmetic since 0078200; `C01_guard_no_panic`): a panic
+                // inside one of them means a request got past the release guard into index arithmetic that
+                // overflows — in a release build the same request wraps and returns a secret.
+                if matches!(kind, "getsecret" | "getsecretnone" | "revoke") {
+                    let n = num(1);
+                    self.violation("c01-secret-path-panic", format!("{} {} panicked inside the secret-release path (a release build wraps here and discloses)", kind, n));
+                }
                 Err("panic".into())
             }
         };
